@@ -68,10 +68,16 @@ def compile_db(repo=REPO):
     """[(unit path relative to repo, [flags])] from `make -n` (prints only)."""
     ensure_configured(repo)
     src = os.path.join(repo, "src")
-    cmd = ["make", "-n", "-B", "-o", "Makefile", "-o", "Makefile.in",
-           "-o", "../config.status", "-o", "../configure", "-o", "../aclocal.m4",
-           "-o", "../Makefile.in", "-o", "../Makefile", "-o", "include/abt_config.h",
-           "-o", "include/abt.h", "libabt.la"]
+    # `make -n -B` would *execute* the rules that remake included makefiles (automake's
+    # .deps/*.Plo are rewritten to "# dummy", which silently breaks header dependency
+    # tracking of /repo's own build).  `-W <source>` (what-if) prints the same compile
+    # lines without touching anything.
+    whatif = []
+    for root, _dirs, files in os.walk(src):
+        for fn in files:
+            if fn.endswith((".c", ".S")):
+                whatif += ["-W", os.path.relpath(os.path.join(root, fn), src)]
+    cmd = ["make", "-n"] + whatif + ["libabt.la"]
     r = _run(cmd, cwd=src)
     units = []
     for line in r.stdout.splitlines():
